@@ -1,26 +1,44 @@
-// c12: seeded driver + recorder for the real diffdb.Database over the real db.DB (in-memory pebble).
+// c12: seeded driver + recorder for the real diffdb.Database over the real db.DB (pebble on an in-memory file system).
 // Every public call is logged with arguments and result; spec/trace/StagedStoreTrace.tla replays the
 // log on the model and compares every read.
 //
-// usage: c12 <out.ndjson> <meta.json> <sequences>
+// usage: c12 <out.ndjson> <meta.json> <sequences>          recorded sequences (standard + liskbft/batchdb phases)
+//
+//	c12 <out.ndjson> <meta.json> <rounds> race     two goroutines on two sibling views (meant for a -race build)
+//
+// Worlds of a standard sequence (chosen per sequence): memtable-only pebble / pebble with close+reopen (WAL replay,
+// flush to L0) after the initial fill and after every commit; the staged store over the DB or over a snapshot Reader;
+// "mirror" sequences whose commit goes through batchdb.NewWithPrefix.
+// Returned byte slices are overwritten with 0xEE after they were logged (Get, raw scans: keys and values; staged
+// Range/Iterate: keys); with VERIF_EXPERIMENTAL=1 additional sequences also overwrite the VALUES returned by staged
+// Range/Iterate, and the slice handed to Set.
 package main
 
 import (
+	"errors"
 	"fmt"
 	"math/rand"
 	"os"
 	"sort"
 	"strconv"
+	"sync"
 
+	"github.com/LiskHQ/lisk-engine/pkg/consensus/liskbft"
 	"github.com/LiskHQ/lisk-engine/pkg/db"
+	"github.com/LiskHQ/lisk-engine/pkg/db/batchdb"
 	"github.com/LiskHQ/lisk-engine/pkg/db/diffdb"
+	"github.com/cockroachdb/pebble/vfs"
 
+	"verifharness/internal/bftx"
 	"verifharness/internal/tj"
 )
 
 var alphabet = []byte{0, 1, 2, 255}
 var rootPrefix = []byte{7}
+var mirrorPrefix = []byte{5}
 var views = [][]byte{{}, {1}, {1, 0}, {2}, {1, 255}, {255}}
+
+type ev = map[string]interface{}
 
 func ints(b []byte) []int {
 	r := make([]int, len(b))
@@ -39,45 +57,95 @@ func key(r *rand.Rand, maxLen int) []byte {
 	return k
 }
 
-func kvs(list []db.KeyValue) [][]interface{} {
+// valueCodec turns the bytes the real store returned into the integer the model uses for that value
+type valueCodec func([]byte) int
+
+func kvsWith(list []db.KeyValue, enc valueCodec) [][]interface{} {
 	res := [][]interface{}{}
 	for _, kv := range list {
-		res = append(res, []interface{}{ints(kv.Key()), venc(kv.Value())})
+		res = append(res, []interface{}{ints(kv.Key()), enc(kv.Value())})
 	}
 	return res
 }
 
-// guard runs a read on the real store; a panic is logged as the impossible result [[[-1], -99]]
-func guard(f func() []db.KeyValue) (res [][]interface{}) {
-	defer func() {
-		if e := recover(); e != nil {
-			res = [][]interface{}{{[]int{-1}, -99}}
-		}
-	}()
-	return kvs(f())
+func kvs(list []db.KeyValue) [][]interface{} { return kvsWith(list, venc) }
+
+func keysOf(list [][]byte) [][]int {
+	res := [][]int{}
+	for _, k := range list {
+		res = append(res, ints(k))
+	}
+	return res
 }
 
-// values: 0 = empty byte string, 1..9 = that single byte
+// scribble overwrites what the API handed out, AFTER it was logged: if the store kept a reference, later reads differ
+func scribble(b []byte) {
+	for i := range b {
+		b[i] = 0xEE
+	}
+}
+
+func scribbleKVs(list []db.KeyValue, keys, values bool) int {
+	n := 0
+	for _, kv := range list {
+		if keys {
+			scribble(kv.Key())
+		}
+		if values && len(kv.Value()) > 0 {
+			scribble(kv.Value())
+			n++
+		}
+	}
+	return n
+}
+
+// guard runs a read on the real store; a panic is logged as the impossible result [[[-1], -99]]
+func guard(f func() []db.KeyValue) (list []db.KeyValue, res [][]interface{}) {
+	defer func() {
+		if e := recover(); e != nil {
+			list, res = nil, [][]interface{}{{[]int{-1}, -99}}
+		}
+	}()
+	list = f()
+	return list, kvs(list)
+}
+
+// values: 0 = empty byte string, 1..255 = that single byte, 2^16 + x = the two bytes of x, 2^24 + x = the three bytes of x
+// (injective on byte strings of length <= 3; longer ones - never written by this driver - map to 2^30 + length)
 func venc(v []byte) int {
-	if len(v) == 0 {
+	switch len(v) {
+	case 0:
 		return 0
-	}
-	if len(v) == 1 {
+	case 1:
 		return int(v[0])
+	case 2:
+		return 1<<16 + int(v[0])<<8 + int(v[1])
+	case 3:
+		return 1<<24 + int(v[0])<<16 + int(v[1])<<8 + int(v[2])
 	}
-	return 1000 + len(v)
+	return 1<<30 + len(v)
 }
 
 func vdec(v int) []byte {
-	if v == 0 {
+	switch {
+	case v == 0:
 		return []byte{}
+	case v < 256:
+		return []byte{byte(v)}
+	case v < 1<<24:
+		return []byte{byte(v >> 8), byte(v)}
 	}
-	return []byte{byte(v)}
+	return []byte{byte(v >> 16), byte(v >> 8), byte(v)}
 }
 
+var longVals = []int{venc([]byte{1, 2}), venc([]byte{2, 1}), venc([]byte{0, 0}), venc([]byte{1, 2, 3}), venc([]byte{1, 2, 4}), venc([]byte{0, 0, 0})}
+
 func randVal(r *rand.Rand) int {
-	if r.Intn(6) == 0 {
+	switch x := r.Intn(8); {
+	case x == 0:
 		return 0
+	case x < 3:
+		return longVals[r.Intn(len(longVals))]
 	}
 	return 1 + r.Intn(9)
 }
@@ -91,219 +159,856 @@ func join(a, b []byte) []byte {
 	return append(r, b...)
 }
 
+const dbDir = "c12db"
+
+func openDB(fs vfs.FS) *db.DB {
+	var d *db.DB
+	var err error
+	if fs == nil {
+		d, err = db.NewInMemoryDB()
+	} else {
+		d, err = db.NewDBWithFS(dbDir, fs)
+	}
+	if err != nil {
+		panic(fmt.Sprintf("c12 harness: cannot open the database: %v", err))
+	}
+	return d
+}
+
 func main() {
 	if len(os.Args) < 4 {
-		fmt.Fprintln(os.Stderr, "usage: c12 out.ndjson meta.json sequences")
+		fmt.Fprintln(os.Stderr, "usage: c12 out.ndjson meta.json sequences [race]")
 		os.Exit(2)
 	}
 	nseq, _ := strconv.Atoi(os.Args[3])
-	r := rand.New(rand.NewSource(int64(tj.EnvInt("VERIF_SEED", 1))))
+	seed := int64(tj.EnvInt("VERIF_SEED", 1))
 	w, err := tj.NewWriter(os.Args[1])
 	if err != nil {
 		panic(err)
 	}
 	meta := map[string]int{}
-	for s := 0; s < nseq; s++ {
-		d, err := db.NewInMemoryDB()
-		if err != nil {
-			panic(err)
+	if len(os.Args) > 4 && os.Args[4] == "race" {
+		racePhase(rand.New(rand.NewSource(seed+7777)), w, meta, nseq)
+	} else {
+		r := rand.New(rand.NewSource(seed))
+		for s := 0; s < nseq; s++ {
+			standardSeq(r, w, meta, s, "")
 		}
-		// initial contents: keys under the root prefix and under neighbouring prefixes
-		nInit := r.Intn(10)
-		for i := 0; i < nInit; i++ {
-			p := rootPrefix
-			switch r.Intn(8) {
-			case 0:
-				p = []byte{6}
-			case 1:
-				p = []byte{8}
-			case 2:
-				p = []byte{7, 1}
-			}
-			k := join(p, key(r, 3))
-			d.Set(k, vdec(randVal(r)))
+		// directed phase: the consumers of "reverse with limit 1" / "inclusive end" in pkg/consensus/liskbft
+		rb := rand.New(rand.NewSource(seed + 4242))
+		bft := discoverBFT()
+		for s := 0; s < nseq/15; s++ {
+			bftSeq(rb, w, meta, bft)
 		}
-		w.Emit(map[string]interface{}{"op": "reset", "db": dump(d)})
-		store := diffdb.New(d, rootPrefix)
-		var lastDiff *diffdb.Diff
-		// a view object that is kept across operations (and possibly across a RestoreSnapshot on the root)
-		var held *diffdb.Database
-		var heldMid *diffdb.Database // the one-byte view the held two-byte view was derived from: later siblings come from it too
-		var heldPrefix []byte
-		stale := 0
-		snapIDs := []int{}
-		nops := 10 + r.Intn(50)
-		for i := 0; i < nops; i++ {
-			vp := views[r.Intn(len(views))]
-			if r.Intn(3) == 0 {
-				vp = []byte{}
-			}
-			full := join(rootPrefix, vp)
-			view := store
-			if len(vp) > 0 {
-				if len(vp) == 2 && heldMid != nil && vp[0] == heldPrefix[0] && r.Intn(2) == 0 {
-					view = heldMid.WithPrefix(vp[1:]) // a sibling of the held view, derived from the same parent view
-				} else if len(vp) == 2 && r.Intn(2) == 0 {
-					view = store.WithPrefix(vp[:1]).WithPrefix(vp[1:]) // nested views
-				} else {
-					view = store.WithPrefix(vp)
-				}
-			}
-			useHeld := 0
-			if held == nil && r.Intn(6) == 0 {
-				heldPrefix = views[1+r.Intn(len(views)-1)]
-				held, heldMid = store.WithPrefix(heldPrefix), nil
-				if len(heldPrefix) == 2 && r.Intn(2) == 0 {
-					heldMid = store.WithPrefix(heldPrefix[:1])
-					held = heldMid.WithPrefix(heldPrefix[1:])
-				}
-				stale = 0
-			}
-			op := r.Intn(20)
-			if held != nil && r.Intn(4) == 0 && (stale == 0 || op >= 8) {
-				view, vp, full, useHeld = held, heldPrefix, join(rootPrefix, heldPrefix), 1
-			}
-			_ = vp
-			limit := -1
-			if r.Intn(2) == 0 {
-				limit = 1 + r.Intn(3)
-			}
-			rev := r.Intn(2)
-			switch {
-			case op < 5:
-				k := key(r, 3-len(vp)+1)
-				v := randVal(r)
-				view.Set(k, vdec(v))
-				w.Emit(map[string]interface{}{"op": "set", "view": ints(full), "k": ints(k), "v": v})
-			case op < 8:
-				k := key(r, 3-len(vp)+1)
-				view.Del(k)
-				w.Emit(map[string]interface{}{"op": "del", "view": ints(full), "k": ints(k)})
-			case op < 10:
-				k := key(r, 3-len(vp)+1)
-				val, ok := view.Get(k)
-				res := -1
-				if ok {
-					res = venc(val)
-				}
-				w.Emit(map[string]interface{}{"op": "get", "view": ints(full), "k": ints(k), "res": res, "held": useHeld, "stale": stale * useHeld})
-			case op < 11:
-				k := key(r, 3-len(vp)+1)
-				w.Emit(map[string]interface{}{"op": "has", "view": ints(full), "k": ints(k), "res": tj.B(view.Has(k)), "held": useHeld, "stale": stale * useHeld})
-			case op < 14:
-				a, b := key(r, 2), key(r, 3)
-				if r.Intn(3) == 0 {
-					a = []byte{}
-				}
-				if r.Intn(3) == 0 {
-					b = []byte{255, 255, 255, 255}
-				}
-				res := guard(func() []db.KeyValue { return view.Range(a, b, limit, rev == 1) })
-				w.Emit(map[string]interface{}{"op": "range", "view": ints(full), "s": ints(a), "e": ints(b), "limit": limit, "rev": rev, "res": res, "held": useHeld, "stale": stale * useHeld})
-				meta["range"]++
-			case op < 16:
-				q := key(r, 2)
-				res := guard(func() []db.KeyValue { return view.Iterate(q, limit, rev == 1) })
-				w.Emit(map[string]interface{}{"op": "iter", "view": ints(full), "q": ints(q), "limit": limit, "rev": rev, "res": res, "held": useHeld, "stale": stale * useHeld})
-				meta["iter"]++
-			case op < 17:
-				// raw database scans (on the committed contents), through DB or a snapshot Reader
-				a, b := join([]byte{byte(6 + r.Intn(3))}, key(r, 2)), join([]byte{byte(6 + r.Intn(3))}, key(r, 3))
-				if r.Intn(2) == 0 {
-					b = join(a, key(r, 2))
-				}
-				var res []db.KeyValue
-				if r.Intn(2) == 0 {
-					res = d.IterateRange(a, b, limit, rev == 1)
-				} else {
-					rd := d.NewReader()
-					res = rd.IterateRange(a, b, limit, rev == 1)
-					rd.Close()
-				}
-				w.Emit(map[string]interface{}{"op": "dbrange", "s": ints(a), "e": ints(b), "limit": limit, "rev": rev, "res": kvs(res)})
-				q := join([]byte{byte(6 + r.Intn(3))}, key(r, 2))
-				res = d.Iterate(q, limit, rev == 1)
-				w.Emit(map[string]interface{}{"op": "dbiter", "q": ints(q), "limit": limit, "rev": rev, "res": kvs(res)})
-				meta["dbscan"]++
-			case op < 18:
-				// snapshots are taken and restored on the root store, views are re-derived afterwards
-				// (this is how pkg/statemachine uses them)
-				switch r.Intn(3) {
-				case 0:
-					id := store.Snapshot()
-					snapIDs = append(snapIDs, id)
-					w.Emit(map[string]interface{}{"op": "snap", "id": id})
-				case 1:
-					id := r.Intn(4)
-					if len(snapIDs) > 0 && r.Intn(4) != 0 {
-						id = snapIDs[r.Intn(len(snapIDs))]
-					}
-					err := store.RestoreSnapshot(id)
-					w.Emit(map[string]interface{}{"op": "restore", "id": id, "err": tj.B(err != nil)})
-					if err == nil {
-						stale = 1
-					}
-					meta["restore"]++
-					if err == nil && r.Intn(2) == 0 {
-						// a new snapshot right after an out-of-order restore (later snapshots are still held): it must not take
-						// over the id of one of them
-						nid := store.Snapshot()
-						snapIDs = append(snapIDs, nid)
-						w.Emit(map[string]interface{}{"op": "snap", "id": nid})
-					}
-				default:
-					if len(snapIDs) > 0 {
-						id := snapIDs[r.Intn(len(snapIDs))]
-						store.DeleteSnapshot(id)
-						w.Emit(map[string]interface{}{"op": "delsnap", "id": id})
-					}
-				}
-			case op < 19:
-				batch := d.NewBatch()
-				diff := store.Commit(batch)
-				d.Write(batch)
-				// the diff must survive its own codec
-				enc := diff.Encode()
-				dec := &diffdb.Diff{}
-				if err := dec.Decode(enc); err != nil {
-					panic(err)
-				}
-				added := [][]int{}
-				for _, a := range dec.Added {
-					added = append(added, ints(a))
-				}
-				sort.Slice(added, func(i, j int) bool { return fmt.Sprint(added[i]) < fmt.Sprint(added[j]) })
-				conv := func(l []*diffdb.KV) [][]interface{} {
-					res := [][]interface{}{}
-					for _, kv := range l {
-						res = append(res, []interface{}{ints(kv.Key), venc(kv.Value)})
-					}
-					return res
-				}
-				w.Emit(map[string]interface{}{"op": "commit", "dump": dump(d), "added": added, "updated": conv(dec.Updated), "deleted": conv(dec.Deleted)})
-				lastDiff = dec
-				store = diffdb.New(d, rootPrefix)
-				snapIDs = nil
-				held, heldMid = nil, nil
-				meta["commit"]++
-			default:
-				if lastDiff != nil {
-					batch := d.NewBatch()
-					store = diffdb.New(d, rootPrefix)
-					store.RevertDiff(batch, lastDiff)
-					d.Write(batch)
-					w.Emit(map[string]interface{}{"op": "revert", "dump": dump(d)})
-					lastDiff = nil
-					snapIDs = nil
-					held, heldMid = nil, nil
-					meta["revert"]++
-				}
+		if os.Getenv("VERIF_EXPERIMENTAL") == "1" {
+			// candidates under triage: slices handed out by staged Range/Iterate, slices handed in to Set
+			rx := rand.New(rand.NewSource(seed + 999))
+			for s := 0; s < nseq/10; s++ {
+				standardSeq(rx, w, meta, s, []string{"range-value", "set-argument"}[s%2])
 			}
 		}
-		d.Close()
-		meta["sequences"]++
 	}
 	w.Close()
 	meta["events"] = w.N
 	tj.WriteJSON(os.Args[2], meta)
+}
+
+// snapObj is a store object (the root or a kept view) that took snapshots: ids are per object
+type snapObj struct {
+	obj int
+	s   *diffdb.Database
+	ids []int
+}
+
+// standardSeq records one operation sequence.  exp != "" : experimental aliasing mode (see the package comment).
+func standardSeq(r *rand.Rand, w *tj.Writer, meta map[string]int, s int, exp string) {
+	var fs vfs.FS
+	if s%20 == 0 {
+		fs = vfs.NewMem() // pebble with a directory: closed and reopened below
+		meta["disk_seq"]++
+	}
+	overReader := s%5 == 1 // the staged store reads through a snapshot Reader, as the framework's read-only contexts do
+	mirror := s%6 == 2     // every key under the root prefix is mirrored under mirrorPrefix; the commit goes through batchdb
+	if overReader {
+		meta["reader_seq"]++
+	}
+	d := openDB(fs)
+	var rd *db.Reader
+	reopen := func() {
+		if fs == nil {
+			return
+		}
+		if rd != nil {
+			rd.Close()
+			rd = nil
+		}
+		d.Close() //nolint: DB.IterateRange leaves its iterator open, Close reports that; the files are closed all the same
+		d = openDB(fs)
+		meta["reopen"]++
+	}
+	// initial contents: keys under the root prefix and under neighbouring prefixes
+	nInit := r.Intn(10)
+	for i := 0; i < nInit; i++ {
+		p := rootPrefix
+		switch r.Intn(10) {
+		case 0:
+			p = []byte{6}
+		case 1:
+			p = []byte{8}
+		case 2:
+			p = []byte{7, 1}
+		case 3:
+			p = []byte{255}
+		case 4:
+			p = []byte{255, 255}
+		}
+		k := join(p, key(r, 3))
+		v := vdec(randVal(r))
+		d.Set(k, v)
+		if mirror && k[0] == rootPrefix[0] {
+			d.Set(join(mirrorPrefix, k), v)
+		}
+	}
+	reopen()
+	w.Emit(ev{"op": "reset", "db": dump(d)})
+	newStore := func() *diffdb.Database {
+		if rd != nil {
+			rd.Close()
+			rd = nil
+		}
+		if overReader {
+			rd = d.NewReader()
+			return diffdb.New(rd, rootPrefix)
+		}
+		return diffdb.New(d, rootPrefix)
+	}
+	store := newStore()
+	var lastDiff *diffdb.Diff
+	// a view object that is kept across operations (and possibly across a RestoreSnapshot)
+	var held *diffdb.Database
+	var heldMid *diffdb.Database // the one-byte view the held two-byte view was derived from: later siblings come from it too
+	var heldPrefix []byte
+	stale := 0
+	objs := []*snapObj{{obj: 0, s: store}}
+	nextObj := 1
+	heldObj := -1
+	dropObjs := func() {
+		objs = []*snapObj{{obj: 0, s: store}}
+		heldObj = -1
+		held, heldMid = nil, nil
+	}
+	tainted := "" // experimental mode: set once a slice was overwritten that the store may still refer to
+	emit := func(e ev) {
+		if tainted != "" {
+			e["exp"] = tainted
+		}
+		w.Emit(e)
+	}
+	// scr overwrites the keys of a staged Range / Iterate result, in the experimental mode "range-value" the values as well
+	scr := func(list []db.KeyValue) {
+		if scribbleKVs(list, true, exp == "range-value") > 0 && exp == "range-value" {
+			tainted = "range-value"
+			meta["exp_range_scribbles"]++
+		}
+	}
+	nops := 10 + r.Intn(50)
+	for i := 0; i < nops; i++ {
+		vp := views[r.Intn(len(views))]
+		if r.Intn(3) == 0 {
+			vp = []byte{}
+		}
+		full := join(rootPrefix, vp)
+		view := store
+		if len(vp) > 0 {
+			if len(vp) == 2 && heldMid != nil && vp[0] == heldPrefix[0] && r.Intn(2) == 0 {
+				view = heldMid.WithPrefix(vp[1:]) // a sibling of the held view, derived from the same parent view
+			} else if len(vp) == 2 && r.Intn(2) == 0 {
+				view = store.WithPrefix(vp[:1]).WithPrefix(vp[1:]) // nested views
+			} else {
+				view = store.WithPrefix(vp)
+			}
+		}
+		useHeld := 0
+		if held == nil && r.Intn(6) == 0 {
+			heldPrefix = views[1+r.Intn(len(views)-1)]
+			held, heldMid = store.WithPrefix(heldPrefix), nil
+			if len(heldPrefix) == 2 && r.Intn(2) == 0 {
+				heldMid = store.WithPrefix(heldPrefix[:1])
+				held = heldMid.WithPrefix(heldPrefix[1:])
+			}
+			stale = 0
+			heldObj = -1
+		}
+		op := r.Intn(22)
+		if held != nil && r.Intn(4) == 0 && (stale == 0 || op >= 8) {
+			view, vp, full, useHeld = held, heldPrefix, join(rootPrefix, heldPrefix), 1
+		}
+		limit := -1
+		if r.Intn(2) == 0 {
+			limit = 1 + r.Intn(3)
+		}
+		rev := r.Intn(2)
+		switch {
+		case op < 5:
+			k := key(r, 3-len(vp)+1)
+			v := randVal(r)
+			arg := vdec(v)
+			view.Set(k, arg)
+			emit(ev{"op": "set", "view": ints(full), "k": ints(k), "v": v})
+			if exp == "set-argument" && len(arg) > 0 && r.Intn(2) == 0 {
+				scribble(arg) // the caller reuses its buffer after the call
+				tainted = "set-argument"
+				meta["exp_set_scribbles"]++
+			}
+		case op < 8:
+			k := key(r, 3-len(vp)+1)
+			view.Del(k)
+			emit(ev{"op": "del", "view": ints(full), "k": ints(k)})
+		case op < 10:
+			k := key(r, 3-len(vp)+1)
+			val, ok := view.Get(k)
+			res := -1
+			if ok {
+				res = venc(val)
+				if len(val) > 1 {
+					meta["multibyte_reads"]++
+				}
+				if len(val) > 0 {
+					meta["scribble_get"]++
+				}
+			}
+			emit(ev{"op": "get", "view": ints(full), "k": ints(k), "res": res, "held": useHeld, "stale": stale * useHeld})
+			scribble(val)
+		case op < 11:
+			k := key(r, 3-len(vp)+1)
+			emit(ev{"op": "has", "view": ints(full), "k": ints(k), "res": tj.B(view.Has(k)), "held": useHeld, "stale": stale * useHeld})
+		case op < 14:
+			a, b := key(r, 2), key(r, 3)
+			if r.Intn(3) == 0 {
+				a = []byte{}
+			}
+			if r.Intn(3) == 0 {
+				b = []byte{255, 255, 255, 255}
+			}
+			list, res := guard(func() []db.KeyValue { return view.Range(a, b, limit, rev == 1) })
+			emit(ev{"op": "range", "view": ints(full), "s": ints(a), "e": ints(b), "limit": limit, "rev": rev, "res": res, "held": useHeld, "stale": stale * useHeld})
+			meta["range"]++
+			scr(list)
+		case op < 16:
+			q := key(r, 2)
+			list, res := guard(func() []db.KeyValue { return view.Iterate(q, limit, rev == 1) })
+			emit(ev{"op": "iter", "view": ints(full), "q": ints(q), "limit": limit, "rev": rev, "res": res, "held": useHeld, "stale": stale * useHeld})
+			meta["iter"]++
+			scr(list)
+		case op < 17:
+			// raw database scans (on the committed contents), through DB or a snapshot Reader
+			first := func() byte {
+				if r.Intn(4) == 0 {
+					return 255
+				}
+				return byte(6 + r.Intn(3))
+			}
+			a, b := join([]byte{first()}, key(r, 2)), join([]byte{first()}, key(r, 3))
+			if r.Intn(2) == 0 {
+				b = join(a, key(r, 2))
+			}
+			var res []db.KeyValue
+			if r.Intn(2) == 0 {
+				res = d.IterateRange(a, b, limit, rev == 1)
+			} else {
+				rdr := d.NewReader()
+				res = rdr.IterateRange(a, b, limit, rev == 1)
+				rdr.Close()
+			}
+			emit(ev{"op": "dbrange", "s": ints(a), "e": ints(b), "limit": limit, "rev": rev, "res": kvs(res)})
+			meta["scribble_scan"] += scribbleKVs(res, true, true)
+			// prefix scans: the four entry points, prefixes with and without an upper bound
+			var q []byte
+			switch r.Intn(6) {
+			case 0:
+				q = []byte{}
+			case 1:
+				q = [][]byte{{255}, {255, 255}, {255, 255, 255}}[r.Intn(3)]
+			default:
+				q = join([]byte{first()}, key(r, 2))
+			}
+			unbounded := len(q) > 0 && q[0] == 255 && (len(q) == 1 || q[1] == 255)
+			variant := r.Intn(4)
+			rdr := d.NewReader()
+			switch variant {
+			case 0, 1:
+				if variant == 0 {
+					res = d.Iterate(q, limit, rev == 1)
+				} else {
+					res = rdr.Iterate(q, limit, rev == 1)
+					meta["dbiter_reader"]++
+				}
+				emit(ev{"op": "dbiter", "q": ints(q), "limit": limit, "rev": rev, "res": kvs(res), "via": []string{"db", "reader"}[variant]})
+				if unbounded && len(res) > 0 {
+					meta["scan255_nonempty"]++
+				}
+				meta["scribble_scan"] += scribbleKVs(res, true, true)
+			default:
+				var ks [][]byte
+				if variant == 2 {
+					ks = d.IterateKey(q, limit, rev == 1)
+				} else {
+					ks = rdr.IterateKey(q, limit, rev == 1)
+				}
+				emit(ev{"op": "dbiterkey", "q": ints(q), "limit": limit, "rev": rev, "res": keysOf(ks), "via": []string{"db", "reader"}[variant-2]})
+				meta["dbiterkey"]++
+				if unbounded && len(ks) > 0 {
+					meta["scan255_nonempty"]++
+				}
+				for _, k := range ks {
+					scribble(k)
+				}
+			}
+			rdr.Close()
+			meta["dbscan"]++
+		case op < 20:
+			// snapshots: mostly on the root store (as pkg/statemachine uses them), one in three through a kept view object;
+			// every object numbers its own snapshots, a restore through any object restores the whole staged state
+			o := objs[0]
+			sub := r.Intn(20)
+			if sub >= 8 {
+				// restore / delete: one in three through a view object that holds snapshots (if there is one)
+				withIDs := []*snapObj{}
+				for _, x := range objs[1:] {
+					if len(x.ids) > 0 {
+						withIDs = append(withIDs, x)
+					}
+				}
+				if len(withIDs) > 0 && r.Intn(3) == 0 {
+					o = withIDs[r.Intn(len(withIDs))]
+				}
+			} else if r.Intn(3) == 0 {
+				switch {
+				case held != nil && r.Intn(2) == 0:
+					if heldObj < 0 {
+						heldObj = nextObj
+						nextObj++
+						objs = append(objs, &snapObj{obj: heldObj, s: held})
+					}
+					for _, x := range objs {
+						if x.obj == heldObj {
+							o = x
+						}
+					}
+				case len(objs) < 4 && len(vp) > 0 && useHeld == 0:
+					o = &snapObj{obj: nextObj, s: view} // this view object is kept from now on
+					nextObj++
+					objs = append(objs, o)
+				default:
+					o = objs[r.Intn(len(objs))]
+				}
+			}
+			switch {
+			case sub < 8:
+				id := o.s.Snapshot()
+				o.ids = append(o.ids, id)
+				emit(ev{"op": "snap", "id": id, "obj": o.obj})
+				if o.obj != 0 {
+					meta["snap_view"]++
+				}
+			case sub < 17:
+				id := r.Intn(4)
+				if len(o.ids) > 0 && r.Intn(4) != 0 {
+					id = o.ids[r.Intn(len(o.ids))]
+				}
+				err := o.s.RestoreSnapshot(id)
+				emit(ev{"op": "restore", "id": id, "obj": o.obj, "err": tj.B(err != nil)})
+				if err == nil {
+					stale = 1
+					meta["restore_ok"]++
+					if o.obj != 0 {
+						meta["restore_view_ok"]++
+					}
+					// whatever object restored: the root now reads exactly the staged state of the snapshot
+					top := []byte{255, 255, 255, 255, 255}
+					list, res := guard(func() []db.KeyValue { return store.Range([]byte{}, top, -1, false) })
+					emit(ev{"op": "range", "view": ints(rootPrefix), "s": []int{}, "e": ints(top), "limit": -1, "rev": 0, "res": res, "held": 0, "stale": 0, "tag": "restore-state"})
+					scr(list)
+				}
+				meta["restore"]++
+				if err == nil && r.Intn(2) == 0 {
+					// a new snapshot right after an out-of-order restore (later snapshots are still held): it must not take
+					// over the id of one of them
+					nid := o.s.Snapshot()
+					o.ids = append(o.ids, nid)
+					emit(ev{"op": "snap", "id": nid, "obj": o.obj})
+				}
+			default:
+				if len(o.ids) > 0 {
+					id := o.ids[r.Intn(len(o.ids))]
+					o.s.DeleteSnapshot(id)
+					emit(ev{"op": "delsnap", "id": id, "obj": o.obj})
+				}
+			}
+		case op < 21:
+			// the receiver of Commit is the root, a fresh view or the held view: the whole staged state is written
+			recv, via := store, rootPrefix
+			switch r.Intn(3) {
+			case 1:
+				if len(vp) > 0 && useHeld == 0 {
+					recv, via = view, full
+					meta["commit_view"]++
+				}
+			case 2:
+				if held != nil {
+					recv, via = held, join(rootPrefix, heldPrefix)
+					meta["commit_view"]++
+				}
+			}
+			batch := d.NewBatch()
+			if mirror {
+				// the same writes, shifted under mirrorPrefix by batchdb: the mirror of the root prefix becomes the staged state
+				bdb := batchdb.NewWithPrefix(d, batch, mirrorPrefix)
+				recv.Commit(bdb)
+				d.Write(batch)
+				reopen()
+				emit(ev{"op": "bcommit", "root": ints(rootPrefix), "p": ints(mirrorPrefix), "via": ints(via), "dump": dump(d)})
+				meta["bcommit"]++
+				bdb = batchdb.NewWithPrefix(d, d.NewBatch(), mirrorPrefix)
+				for j := 0; j < 3; j++ {
+					k := join(rootPrefix, key(r, 3))
+					val, ok := bdb.Get(k)
+					res := -1
+					if ok {
+						res = venc(val)
+					}
+					emit(ev{"op": "bget", "p": ints(mirrorPrefix), "k": ints(k), "res": res})
+					meta["bget"]++
+				}
+				i = nops // the root prefix no longer holds what the store staged: the sequence ends here
+				break
+			}
+			diff := recv.Commit(batch)
+			d.Write(batch)
+			reopen()
+			// the diff must survive its own codec
+			enc := diff.Encode()
+			dec := &diffdb.Diff{}
+			if err := dec.Decode(enc); err != nil {
+				panic(err)
+			}
+			added := [][]int{}
+			for _, a := range dec.Added {
+				added = append(added, ints(a))
+			}
+			sort.Slice(added, func(i, j int) bool { return fmt.Sprint(added[i]) < fmt.Sprint(added[j]) })
+			conv := func(l []*diffdb.KV) [][]interface{} {
+				res := [][]interface{}{}
+				for _, kv := range l {
+					res = append(res, []interface{}{ints(kv.Key), venc(kv.Value)})
+				}
+				return res
+			}
+			emit(ev{"op": "commit", "via": ints(via), "dump": dump(d), "added": added, "updated": conv(dec.Updated), "deleted": conv(dec.Deleted)})
+			lastDiff = dec
+			store = newStore()
+			dropObjs()
+			meta["commit"]++
+		default:
+			if lastDiff != nil {
+				batch := d.NewBatch()
+				store = newStore()
+				recv, via := store, rootPrefix
+				if len(vp) > 0 && r.Intn(2) == 0 {
+					recv, via = store.WithPrefix(vp), join(rootPrefix, vp)
+					meta["revert_view"]++
+				}
+				recv.RevertDiff(batch, lastDiff)
+				d.Write(batch)
+				reopen()
+				emit(ev{"op": "revert", "via": ints(via), "dump": dump(d)})
+				lastDiff = nil
+				store = newStore()
+				dropObjs()
+				meta["revert"]++
+			}
+		}
+	}
+	if rd != nil {
+		rd.Close()
+	}
+	d.Close()
+	meta["sequences"]++
+	w.Flush() // the supervisor takes a growing trace as the sign of progress
+}
+
+// ---------------------------------------------------------------------------------------------- liskbft phase
+
+type bftLayout struct {
+	params, keys []byte // the 6-byte store prefixes of the BFT parameters / generator keys under the state prefix
+	state        []byte
+}
+
+func viewDump(d *db.DB, state []byte) map[string][]byte {
+	res := map[string][]byte{}
+	for _, kv := range d.Iterate(state, -1, false) {
+		if len(kv.Key()) == len(state)+10 {
+			res[string(kv.Key())] = kv.Value()
+		}
+	}
+	return res
+}
+
+// discoverBFT learns where the real module keeps parameters and generator keys (the prefixes are not exported): it
+// writes one of each on a scratch node and looks at the database.
+func discoverBFT() *bftLayout {
+	n, err := bftx.NewNode(2, 2, 3)
+	if err != nil {
+		panic(fmt.Sprintf("c12 harness: bft node: %v", err))
+	}
+	defer n.Close()
+	state := []byte{10}
+	if err := n.SetParams(20, 20, []uint64{15, 15}, nil); err != nil {
+		panic(fmt.Sprintf("c12 harness: SetBFTParameters: %v", err))
+	}
+	n.Flush()
+	a := viewDump(n.DB, state)
+	if len(a) != 1 {
+		// the state prefix is blockchain.DBPrefixState; take it from the data if it ever changes
+		all := n.DB.Iterate([]byte{}, -1, false)
+		if len(all) == 0 {
+			panic("c12 harness: nothing stored by SetBFTParameters")
+		}
+		state = []byte{all[0].Key()[0]}
+		a = viewDump(n.DB, state)
+		if len(a) != 1 {
+			panic("c12 harness: layout of the BFT parameter store not recognised")
+		}
+	}
+	l := &bftLayout{state: state}
+	for k := range a {
+		l.params = []byte(k)[len(state) : len(state)+6]
+	}
+	if err := n.Mod.API().SetGeneratorKeys(n.Store, liskbft.Generators{liskbft.NewGenerator(bftx.Addr(1), bftx.GenKey(1))}); err != nil {
+		panic(fmt.Sprintf("c12 harness: SetGeneratorKeys: %v", err))
+	}
+	n.Flush()
+	for k := range viewDump(n.DB, state) {
+		if _, old := a[k]; !old {
+			l.keys = []byte(k)[len(state) : len(state)+6]
+		}
+	}
+	if l.keys == nil || string(l.keys) == string(l.params) {
+		panic("c12 harness: layout of the generator key store not recognised")
+	}
+	return l
+}
+
+func be32(h uint32) []byte { return []byte{byte(h >> 24), byte(h >> 16), byte(h >> 8), byte(h)} }
+
+// bftSeq: a real liskbft.Module on a real staged store.  Heights are 4-byte big-endian keys in two views; the model is told
+// every write (set: after SetBFTParameters / SetGeneratorKeys; bftprune: what BeforeTransactionsExecute must retain) and
+// checks GetBFTParameters / GetGeneratorKeys (Range(0, h, 1, reverse)), NextHeightBFTParameters (Range(h+1, max, 1)) and
+// the contents of both views after every block.
+func bftSeq(r *rand.Rand, w *tj.Writer, meta map[string]int, l *bftLayout) {
+	bases := []uint32{0, 1, 2, 250, 252, 254, 65530, 65533, 16777210}
+	h0 := bases[r.Intn(len(bases))]
+	n, err := bftx.NewNode(2, 2, h0)
+	if err != nil {
+		panic(fmt.Sprintf("c12 harness: bft node: %v", err))
+	}
+	defer n.Close()
+	api := n.Mod.API()
+	pfull, gfull := join(l.state, l.params), join(l.state, l.keys)
+	w.Emit(ev{"op": "reset", "db": [][]interface{}{}})
+	tags := map[string]int{}               // encoded value -> the integer the model uses for it
+	known := map[string]map[uint32][]byte{ // what the model was told, per view
+		"p": {}, "g": {}}
+	enc := func(v []byte) int {
+		if t, ok := tags[string(v)]; ok {
+			return t
+		}
+		return -7
+	}
+	tip := h0
+	lastPc, lastGen := uint64(0), 0
+	// told: after a call that may have written at height h, read that one key back and tell the model
+	told := func(which string, full, suffix []byte, h uint32, tag int) {
+		val, ok := n.Store.WithPrefix(suffix).Get(be32(h))
+		if !ok || string(val) == string(known[which][h]) {
+			return
+		}
+		tags[string(val)] = tag
+		known[which][h] = val
+		w.Emit(ev{"op": "set", "view": ints(full), "k": ints(be32(h)), "v": tag})
+	}
+	setParams := func() {
+		pc := uint64(11 + r.Intn(20))
+		for pc == lastPc {
+			pc = uint64(11 + r.Intn(20))
+		}
+		ce := uint64(11 + r.Intn(20))
+		if err := n.SetParams(pc, ce, []uint64{15, 15}, nil); err != nil {
+			panic(fmt.Sprintf("c12 harness: SetBFTParameters: %v", err))
+		}
+		lastPc = pc
+		told("p", pfull, l.params, tip+1, int(pc))
+	}
+	setKeys := func() {
+		g := 1 + r.Intn(2)
+		if g == lastGen {
+			g = 3 - g
+		}
+		gens := liskbft.Generators{liskbft.NewGenerator(bftx.Addr(g), bftx.GenKey(g)), liskbft.NewGenerator(bftx.Addr(3-g), bftx.GenKey(3-g))}
+		if err := api.SetGeneratorKeys(n.Store, gens); err != nil {
+			panic(fmt.Sprintf("c12 harness: SetGeneratorKeys: %v", err))
+		}
+		lastGen = g
+		told("g", gfull, l.keys, tip+1, 100+g)
+	}
+	below := func(which string, h uint32) int {
+		c := 0
+		for k := range known[which] {
+			if k <= h {
+				c++
+			}
+		}
+		return c
+	}
+	probe := func() {
+		var h uint32
+		switch r.Intn(6) {
+		case 0:
+			h = 0
+		case 1:
+			h = 0xffffffff
+		default:
+			lo := h0
+			if lo > 0 {
+				lo--
+			}
+			h = lo + uint32(r.Intn(int(tip+2-lo)+1))
+		}
+		switch r.Intn(5) {
+		case 0, 1:
+			res := -1
+			p, err := api.GetBFTParameters(n.Store, h)
+			if err == nil {
+				res = int(p.PrecommitThreshold())
+			} else if !errors.Is(err, liskbft.ErrBFTParamsNotFound) {
+				res = -2
+			}
+			w.Emit(ev{"op": "bftget", "view": ints(pfull), "h": ints(be32(h)), "res": res})
+			meta["bft_get"]++
+			if below("p", h) >= 2 {
+				meta["bft_get_multi"]++
+			}
+		case 2, 3:
+			res := -1
+			g, err := api.GetGeneratorKeys(n.Store, h)
+			if err == nil && len(g) > 0 {
+				res = 100 + bftx.ValOf(g[0].Address())
+			} else if err == nil || !errors.Is(err, liskbft.ErrGeneratorKeysNotFound) {
+				res = -2
+			}
+			w.Emit(ev{"op": "bftget", "view": ints(gfull), "h": ints(be32(h)), "res": res})
+			meta["bft_get"]++
+			if below("g", h) >= 2 {
+				meta["bft_get_multi"]++
+			}
+		default:
+			if h == 0xffffffff {
+				h = tip
+			}
+			res := [][]int{}
+			nh, err := api.NextHeightBFTParameters(n.Store, h)
+			if err == nil {
+				res = append(res, ints(be32(nh)))
+			}
+			w.Emit(ev{"op": "bftnext", "view": ints(pfull), "s": ints(be32(h + 1)), "res": res})
+			meta["bft_next"]++
+		}
+	}
+	whole := func(full, suffix []byte, tag string) int {
+		list := n.Store.WithPrefix(suffix).Range(be32(0), be32(0xffffffff), -1, false)
+		w.Emit(ev{"op": "range", "view": ints(full), "s": ints(be32(0)), "e": ints(be32(0xffffffff)), "limit": -1, "rev": 0,
+			"res": kvsWith(list, enc), "held": 0, "stale": 0, "tag": tag})
+		return len(list)
+	}
+	flush := func() {
+		n.Flush()
+		d := append(n.DB.Iterate(pfull, -1, false), n.DB.Iterate(gfull, -1, false)...)
+		w.Emit(ev{"op": "flush", "views": [][]int{ints(pfull), ints(gfull)}, "dump": kvsWith(d, enc)})
+		meta["bft_flush"]++
+	}
+	setParams()
+	setKeys()
+	cert := h0
+	nblocks := 8 + r.Intn(8)
+	for b := 0; b < nblocks; b++ {
+		mhpv, _, _, herr := api.GetBFTHeights(n.Store)
+		if herr != nil {
+			panic(fmt.Sprintf("c12 harness: GetBFTHeights: %v", herr))
+		}
+		hd := bftx.Hdr{H: tip + 1, Gen: uint32(1 + r.Intn(2)), Mhg: tip, Mhp: mhpv, AcH: cert}
+		if tip > h0 && r.Intn(3) != 0 {
+			// the aggregate commit certifies a height between the last certified one and the parent
+			c := cert + uint32(r.Intn(int(tip-cert)+1))
+			hd.AcH, hd.AcNonEmpty = c, true
+		}
+		before := len(known["p"]) + len(known["g"])
+		if err := n.Apply(n.Header(hd)); err != nil {
+			// the module refused the block (possible only when its own reads went wrong): nothing more to compare here
+			meta["bft_apply_err"]++
+			break
+		}
+		tip++
+		if hd.AcNonEmpty {
+			cert = hd.AcH
+		}
+		o, err := n.Observe()
+		if err != nil {
+			meta["bft_apply_err"]++
+			break
+		}
+		oldest := tip
+		if len(o.Win) > 0 {
+			oldest = uint32(o.Win[len(o.Win)-1][0])
+		}
+		minH := oldest
+		if o.Cert+1 < minH {
+			minH = o.Cert + 1
+		}
+		// BeforeTransactionsExecute keeps, in both views, everything above minH and the newest entry at or below it
+		for _, x := range []struct {
+			which        string
+			full, suffix []byte
+		}{{"p", pfull, l.params}, {"g", gfull, l.keys}} {
+			w.Emit(ev{"op": "bftprune", "view": ints(x.full), "h": ints(be32(minH))})
+			var newest uint32
+			found := false
+			for k := range known[x.which] {
+				if k <= minH && (!found || k > newest) {
+					newest, found = k, true
+				}
+			}
+			for k := range known[x.which] {
+				if k <= minH && k != newest {
+					delete(known[x.which], k)
+				}
+			}
+			whole(x.full, x.suffix, "bft-prune")
+		}
+		if len(known["p"])+len(known["g"]) < before {
+			meta["bft_prune_removed"]++
+		}
+		meta["bft_apply"]++
+		if r.Intn(2) == 0 {
+			setParams()
+		}
+		if r.Intn(3) == 0 {
+			setKeys()
+		}
+		if r.Intn(3) == 0 {
+			flush()
+		}
+		for j := r.Intn(3); j > 0; j-- {
+			probe()
+		}
+	}
+	meta["bft_seq"]++
+	w.Flush()
+}
+
+// ---------------------------------------------------------------------------------------------- two goroutines, two views
+
+// racePhase: per round one store with two sibling views; two goroutines, released at the same instant, work each on its own
+// view (Get fills the shared overlay from the database, Set/Del write it, Range/Iterate scan it).  The key sets of the two
+// views are disjoint, so every interleaving is equivalent to "first all calls of A, then all calls of B": that order is
+// logged and validated by the monitor like any other sequence.  Data races are the race detector's business.
+func racePhase(r *rand.Rand, w *tj.Writer, meta map[string]int, rounds int) {
+	type call struct {
+		op         int
+		k, a, b    []byte
+		v, lim, rv int
+	}
+	for round := 0; round < rounds; round++ {
+		fmt.Fprintf(os.Stderr, "C12-RACE round %d begin\n", round)
+		d := openDB(nil)
+		for i := r.Intn(8); i > 0; i-- {
+			d.Set(join([]byte{7, byte(1 + r.Intn(2))}, key(r, 2)), vdec(randVal(r)))
+		}
+		w.Emit(ev{"op": "reset", "db": dump(d)})
+		store := diffdb.New(d, rootPrefix)
+		vs := []*diffdb.Database{store.WithPrefix([]byte{1}), store.WithPrefix([]byte{2})}
+		plans := [2][]call{}
+		for g := 0; g < 2; g++ {
+			for i := 8 + r.Intn(6); i > 0; i-- {
+				c := call{op: r.Intn(10), k: key(r, 2), a: key(r, 1), b: key(r, 2), v: randVal(r), lim: -1, rv: r.Intn(2)}
+				if r.Intn(2) == 0 {
+					c.lim = 1 + r.Intn(2)
+				}
+				plans[g] = append(plans[g], c)
+			}
+		}
+		logs := [2][]ev{}
+		start := make(chan struct{})
+		var wg sync.WaitGroup
+		for g := 0; g < 2; g++ {
+			wg.Add(1)
+			go func(g int) {
+				defer wg.Done()
+				v, full := vs[g], ints([]byte{7, byte(1 + g)})
+				<-start
+				for _, c := range plans[g] {
+					switch {
+					case c.op < 3:
+						v.Set(c.k, vdec(c.v))
+						logs[g] = append(logs[g], ev{"op": "set", "view": full, "k": ints(c.k), "v": c.v})
+					case c.op < 4:
+						v.Del(c.k)
+						logs[g] = append(logs[g], ev{"op": "del", "view": full, "k": ints(c.k)})
+					case c.op < 7:
+						val, ok := v.Get(c.k)
+						res := -1
+						if ok {
+							res = venc(val)
+						}
+						logs[g] = append(logs[g], ev{"op": "get", "view": full, "k": ints(c.k), "res": res, "held": 0, "stale": 0})
+					case c.op < 8:
+						logs[g] = append(logs[g], ev{"op": "has", "view": full, "k": ints(c.k), "res": tj.B(v.Has(c.k)), "held": 0, "stale": 0})
+					case c.op < 9:
+						res := kvs(v.Range(c.a, join(c.a, c.b), c.lim, c.rv == 1))
+						logs[g] = append(logs[g], ev{"op": "range", "view": full, "s": ints(c.a), "e": ints(join(c.a, c.b)), "limit": c.lim, "rev": c.rv, "res": res, "held": 0, "stale": 0})
+					default:
+						res := kvs(v.Iterate(c.a, c.lim, c.rv == 1))
+						logs[g] = append(logs[g], ev{"op": "iter", "view": full, "q": ints(c.a), "limit": c.lim, "rev": c.rv, "res": res, "held": 0, "stale": 0})
+					}
+				}
+			}(g)
+		}
+		close(start)
+		wg.Wait()
+		for g := 0; g < 2; g++ {
+			for _, e := range logs[g] {
+				e["tag"] = "concurrent-views"
+				w.Emit(e)
+				meta["race_calls"]++
+			}
+		}
+		batch := d.NewBatch()
+		diff := vs[round%2].Commit(batch)
+		d.Write(batch)
+		added := [][]int{}
+		for _, a := range diff.Added {
+			added = append(added, ints(a))
+		}
+		conv := func(l []*diffdb.KV) [][]interface{} {
+			res := [][]interface{}{}
+			for _, kv := range l {
+				res = append(res, []interface{}{ints(kv.Key), venc(kv.Value)})
+			}
+			return res
+		}
+		w.Emit(ev{"op": "commit", "via": []int{7, 1 + round%2}, "dump": dump(d), "added": added, "updated": conv(diff.Updated), "deleted": conv(diff.Deleted), "tag": "concurrent-views"})
+		d.Close()
+		meta["race_rounds"]++
+		meta["sequences"]++
+		w.Flush()
+	}
 }
